@@ -125,7 +125,9 @@ Resample == \E e \in Sizes : /\ e \div 1000 = D /\ e % 1000 # N
 Project == IsVec /\ (\A c \in 1..Len(st) : \A p \in DOMAIN st[c] : 2 * VMaxAbs(p) < N) /\ \E rep \in 1..6 : Step(Leray(D, w, st), [op |-> "leray", rep |-> rep], 0)
 NyqFree == \A c \in 1..Len(st) : \A p \in DOMAIN st[c] : 2 * VMaxAbs(p) < N
 Incomp  == IsVec /\ NyqFree /\ \E rep \in 1..3 : Step(Leray(D, w, st), [op |-> "incomp", rep |-> rep], 0)
-Poisson == \E o \in {2, 4}, rep \in 1..2 : Step(MapCh(LAMBDA c : PoissonF(c, o)), [op |-> "poisson", o |-> o, rep |-> rep], 0)
+\* the quartic symbol puts fourth powers into the denominators: it draws on the same budget as the nonlinear evaluations (32-bit rationals)
+Poisson == \E o \in {2, 4}, rep \in 1..2 : LET cost == IF o = 4 THEN 1 ELSE 0 IN
+               nl + cost <= MaxNl /\ Step(MapCh(LAMBDA c : PoissonF(c, o)), [op |-> "poisson", o |-> o, rep |-> rep], cost)
 OddballA == N % 2 = 0 /\ Step(MapCh(OddballF), [op |-> "oddball"], 0)
 AddMode == \E p \in {NthMode(D, N, i) : i \in 1..3}, tr \in {"cos", "sin"}, ch \in 1..Len(st) :
               Step([c \in 1..Len(st) |-> IF c = ch THEN FAdd(st[c], BasisOn(D, N, p, tr)) ELSE st[c]],
